@@ -33,6 +33,12 @@ var (
 	curveOrder, _ = new(big.Int).SetString("73eda753299d7d483339d80809a1d80553bda402fffe5bfeffffffff00000001", 16)
 )
 
+// copyG1 and copyG2 return copies of a point. The pairing engine and the compression functions normalize
+// the points they are given in place; keys and signatures are shared between goroutines (votes are verified
+// concurrently), so they must only ever be handed over as copies.
+func copyG1(p *bls12.PointG1) *bls12.PointG1 { return new(bls12.PointG1).Set(p) }
+func copyG2(p *bls12.PointG2) *bls12.PointG2 { return new(bls12.PointG2).Set(p) }
+
 // BLS12PublicKey is a bls12-381 public key.
 type BLS12PublicKey struct {
 	p *bls12.PointG1
@@ -40,7 +46,7 @@ type BLS12PublicKey struct {
 
 // ToBytes marshals the public key to a byte slice.
 func (pub BLS12PublicKey) ToBytes() []byte {
-	return bls12.NewG1().ToCompressed(pub.p)
+	return bls12.NewG1().ToCompressed(copyG1(pub.p))
 }
 
 // FromBytes unmarshals the public key from a byte slice.
@@ -113,7 +119,7 @@ func (agg *BLS12AggregateSignature) ToBytes() []byte {
 	if agg == nil {
 		return nil
 	}
-	b := bls12.NewG2().ToCompressed(&agg.sig)
+	b := bls12.NewG2().ToCompressed(copyG2(&agg.sig))
 	return b
 }
 
@@ -214,8 +220,8 @@ func (bls *bls12Base) coreVerify(pubKey *BLS12PublicKey, message []byte, signatu
 		return err
 	}
 	engine := bls12.NewEngine()
-	engine.AddPairInv(&bls12.G1One, signature)
-	engine.AddPair(pubKey.p, messagePoint)
+	engine.AddPairInv(&bls12.G1One, copyG2(signature))
+	engine.AddPair(copyG1(pubKey.p), messagePoint)
 	if !engine.Result().IsOne() {
 		return fmt.Errorf("bls12: failed to verify message")
 	}
@@ -290,10 +296,10 @@ func (bls *bls12Base) coreAggregateVerify(publicKeys []*BLS12PublicKey, messages
 		if err != nil {
 			return err
 		}
-		engine.AddPair(publicKeys[i].p, q)
+		engine.AddPair(copyG1(publicKeys[i].p), q)
 	}
 
-	engine.AddPairInv(&bls12.G1One, signature)
+	engine.AddPairInv(&bls12.G1One, copyG2(signature))
 	if !engine.Result().IsOne() {
 		return fmt.Errorf("bls12: failed to verify aggregated message")
 	}
